@@ -143,3 +143,48 @@ def deepen(rng, prog):
         prog["frames"][a]["precur"].append({"k": "go", "far": b, "needs": [need("recurred", False, op=">=", goal=rng.randint(1, 2))], "transit": []})
     prog["framers"][f]["first"] = rng.choice((leaf1, leaf3, mid2))
     return True
+
+
+def exit_bids(rng, prog):
+    """a framer that is stopped by another one bids on itself (or on all) from an exit context, and the stopper exists"""
+    mains = list(prog["order"])
+    if len(mains) < 2:
+        return False
+    victim, boss = rng.sample(mains, 2)
+    prog["framers"][victim]["sched"] = "active"
+    prog["framers"][boss]["sched"] = "active"
+    vk = _keys_of(prog, victim)
+    for key in rng.sample(vk, k=min(len(vk), rng.randint(1, 2))):
+        prog["frames"][key]["exit"].append({"k": "bid", "ctl": rng.choice(("start", "start", "run", "ready")),
+                                            "who": rng.choice((["me"], ["all"], [victim])), "period": -1})
+    bk = _keys_of(prog, boss)
+    key = rng.choice(bk)
+    prog["frames"][key][rng.choice(("enter", "recur"))].append({"k": "bid", "ctl": "stop", "who": [victim], "period": -1})
+    # and later possibly start it again
+    prog["frames"][rng.choice(bk)]["recur"].append({"k": "bid", "ctl": rng.choice(("start", "stop")), "who": [victim], "period": -1})
+    return True
+
+
+SHAPES = {
+    "C03": (exit_bids, deepen, branchy_condaux),
+    "C04": (exit_bids, exit_bids),
+    "C05": (deepen, branchy_condaux, exit_bids),
+    "C06": (deepen, branchy_condaux, shared_original, later_done),
+    "C07": (deepen, shared_original, branchy_condaux, later_done, exit_bids),
+    "C08": (shared_original, deepen),
+    "C09": (shared_original, later_done, deepen),
+    "C10": (branchy_condaux, later_done, branchy_condaux),
+    "C11": (deepen, later_done),
+}
+
+
+def apply(rng, prop, prog, fraction=0.5):
+    """reshape about `fraction` of the programs of a property with one or two of its shapes"""
+    fns = SHAPES.get(prop)
+    if not fns or rng.random() >= fraction:
+        return []
+    used = []
+    for fn in rng.sample(fns, k=min(len(fns), rng.choice((1, 1, 2)))):
+        if fn(rng, prog):
+            used.append(fn.__name__)
+    return used
